@@ -1072,7 +1072,7 @@ theorem storeProv_inv (U : List Prov) (hU : SumsOK U) (v : Variant) (f : Faults)
   split
   · exact ⟨E, h⟩
   rename_i htok
-  cases hpc : Auth.provPolicyCheck s.cache.A p with
+  cases hpc : Auth.provPolicyCheck s.cache.A p.name p with
   | some o => exact ⟨E, h⟩
   | none =>
   simp only
@@ -1244,14 +1244,23 @@ theorem dbinv_replace {U : List Prov} {db : DB} (h : DBInv U db) {p old : Prov} 
     · exact ⟨p, (hm p).mpr (.inl rfl), by rw [← hqp]; exact hqid⟩
     · exact ⟨q, (hm q).mpr (.inr ⟨hq, hqp⟩), hqid⟩
 
-theorem updateProv_inv (U : List Prov) (hU : SumsOK U) (v : Variant) (hv : v.fixRename = true) (f : Faults)
+theorem Agrees.sorted_pairs {U : List Prov} {cache : Cache} {db : DB} {E : List Ent} (h : Agrees U cache db E) :
+    (cache.A.sorted.map pairOf).Nodup := by
+  refine nodup_map_of_inj _ (nodup_of_nodup_map _ h.ast.ainv.nodup_id) (fun x hx y hy e => ?_)
+  exact inj_of_nodup_map _ h.dbinv.apair ((h.agreeA x).mp hx) ((h.agreeA y).mp hy) e
+
+/-- `UpdateProvisioner` for the repaired code: a rename re-indexes the administrators from memory
+    (`reindexAdmins`), so the only way to `reloadFailed` is a failed write followed by a failed
+    reload -/
+theorem updateProv_inv (U : List Prov) (hU : SumsOK U) (v : Variant) (hv : v.fixReindex = true) (f : Faults)
     (s : Auth) (p : Prov) (hpU : p ∈ U) (h : AuthInv U s)
     (hnr : (Auth.step v f s (.updateProv p)).2 ≠ .reloadFailed) :
     AuthInv U (Auth.step v f s (.updateProv p)).1 := by
   obtain ⟨E, h⟩ := h
   unfold Auth.step at hnr ⊢
   simp only [tick] at hnr ⊢
-  cases hpc : Auth.provPolicyCheck s.cache.A p with
+  generalize (if v.fixPolName = true then (s.cache.provName p.id).getD p.name else p.name) = nm at hnr ⊢
+  cases hpc : Auth.provPolicyCheck s.cache.A nm p with
   | some o => exact ⟨E, h⟩
   | none =>
   simp only [hpc] at hnr ⊢
@@ -1275,39 +1284,48 @@ theorem updateProv_inv (U : List Prov) (hU : SumsOK U) (v : Variant) (hv : v.fix
           .storeFailed (by simp) h.dbinv hnr).1
       · simp only [List.contains_eq_mem, hb, decide_false, Bool.false_eq_true, if_false] at hnr ⊢
         have holdDB : old ∈ s.db.provs := (h.agreeP old).mp hold
-        have hfreeDB : ∀ q ∈ s.db.provs, q.id ≠ p.id → q.name ≠ p.name ∧ q.tok ≠ p.tok :=
-          fun q hq => hfree q ((h.agreeP q).mpr hq)
         have hpn : s.cache.provName p.id = some old.name := by
           unfold Cache.provName; rw [hget]; rfl
+        have hP'U : ∀ e ∈ P'.sorted, e.2 ∈ U := by
+          intro e he
+          rcases (hPm e.2).mp (List.mem_map.mpr ⟨e, he, rfl⟩) with h1 | h1
+          · rw [h1]; exact hpU
+          · obtain ⟨e', he', heq⟩ := List.mem_map.mp h1.1
+            rw [← heq]; exact h.pU e' he'
+        have hagP : ∀ q, q ∈ P'.provs ↔ q ∈ s.db.provs.map (fun x => if x.id = p.id then p else x) := by
+          intro q; rw [hPm, mem_map_replace holdDB hoid, h.agreeP]
+        have hdbP : ((s.db.provs.map (fun x => if x.id = p.id then p else x)).map (·.id)).Nodup := by
+          rw [map_replace_ids]; exact h.dbP
         by_cases hren : s.cache.provName p.id ≠ some p.name
-        · -- renamed: the repaired code rebuilds the caches from the database
+        · -- renamed: the admin collection is rebuilt from the admins it holds
           simp only [hv, true_and] at hnr ⊢
           rw [if_pos hren] at hnr ⊢
-          exact (afterFail_inv U hU f
-            { cache := { P := P', A := s.cache.A },
-              db := { s.db with provs := s.db.provs.map (fun q => if q.id = p.id then p else q) },
-              engine := s.engine, calls := 0 + 1 }
-            .ok (by simp) (dbinv_replace h.dbinv hpU holdDB hoid hfreeDB) hnr).1
+          obtain ⟨A', E', hgo, hst, hAm⟩ := goA_spec P' hPinv s.cache.A.sorted {} []
+            ⟨AInv.empty, CInv.empty, GRep.empty, by intro e he; cases he⟩ h.ast.ainv.nodup_id (by simp)
+            h.sorted_pairs (by simp)
+            (by
+              intro a ha
+              obtain ⟨m, hm⟩ := (h.ast.grep.listed a).mp ha
+              obtain ⟨q, hq, hqid, _⟩ := h.ast.linked (m, a) hm
+              by_cases hqp : q.id = p.id
+              · exact ⟨p, (hPm p).mpr (.inl rfl), by rw [← hqp]; exact hqid⟩
+              · exact ⟨q, (hPm q).mpr (.inr ⟨hq, hqp⟩), hqid⟩)
+          simp only [hgo]
+          exact ⟨E', hPinv, hP'U, hst, hagP, by intro a; rw [hAm]; simp [h.agreeA], hdbP, h.dbA⟩
         · simp only [hv, true_and]
           rw [if_neg hren]
           have hsame : old.name = p.name := by
             have : s.cache.provName p.id = some p.name := by simpa using hren
             rw [hpn] at this; exact Option.some.inj this
-          refine ⟨E, hPinv, ?_, ⟨h.ast.ainv, h.ast.cinv, h.ast.grep, ?_⟩, ?_, h.agreeA, ?_, h.dbA⟩
-          · intro e he
-            rcases (hPm e.2).mp (List.mem_map.mpr ⟨e, he, rfl⟩) with h1 | h1
-            · rw [h1]; exact hpU
-            · obtain ⟨e', he', heq⟩ := List.mem_map.mp h1.1
-              rw [← heq]; exact h.pU e' he'
-          · intro e he
-            obtain ⟨q, hq, hqid, hqn⟩ := h.ast.linked e he
-            by_cases hqp : q.id = p.id
-            · have : q = old := (h.pinv.unique hq hold).1 (by rw [hqp, hoid])
-              exact ⟨p, (hPm p).mpr (.inl rfl), by rw [← hqp]; exact hqid, by rw [← hsame, ← this]; exact hqn⟩
-            · exact ⟨q, (hPm q).mpr (.inr ⟨hq, hqp⟩), hqid, hqn⟩
-          · intro q
-            rw [hPm, mem_map_replace holdDB hoid, h.agreeP]
-          · rw [map_replace_ids]; exact h.dbP
+          have hnoRen : ¬(v.fixRename = true ∧ s.cache.provName p.id ≠ some p.name) := fun hh => hren hh.2
+          rw [if_neg hnoRen]
+          refine ⟨E, hPinv, hP'U, ⟨h.ast.ainv, h.ast.cinv, h.ast.grep, ?_⟩, hagP, h.agreeA, hdbP, h.dbA⟩
+          intro e he
+          obtain ⟨q, hq, hqid, hqn⟩ := h.ast.linked e he
+          by_cases hqp : q.id = p.id
+          · have : q = old := (h.pinv.unique hq hold).1 (by rw [hqp, hoid])
+            exact ⟨p, (hPm p).mpr (.inl rfl), by rw [← hqp]; exact hqid, by rw [← hsame, ← this]; exact hqn⟩
+          · exact ⟨q, (hPm q).mpr (.inr ⟨hq, hqp⟩), hqid, hqn⟩
 
 theorem filter_notin_cons {α : Type} (key : α → Str) (l : List α) (id : Str) (ids : List Str) :
     (l.filter (fun e => decide (key e ≠ id))).filter (fun e => !ids.contains (key e)) =
@@ -1608,6 +1626,8 @@ theorem step_frame (v : Variant) (f : Faults) (s : Auth) (op : AOp) (hop : isPol
         exact ⟨by rw [this.1], this.2⟩
       · simp only [List.contains_eq_mem, hb, decide_false, Bool.false_eq_true, if_false]
         split
+        · cases buildCache.goA P {} s.cache.A.sorted <;> exact ⟨rfl, rfl⟩
+        split
         · have := afterFail_frame f
             { cache := { P := P, A := s.cache.A },
               db := { provs := s.db.provs.map (fun q => if q.id = p.id then p else q), adms := s.db.adms, policy := s.db.policy },
@@ -1649,89 +1669,98 @@ theorem Agrees.with_policy {U : List Prov} {cache : Cache} {db : DB} {E : List E
     and the policy engine is the stored authority policy -/
 def FullInv (U : List Prov) (s : Auth) : Prop := AuthInv U s ∧ s.engine = s.db.policy
 
-theorem reloadPolicy_inv (U : List Prov) (f : Faults) (s : Auth) (h : AuthInv U s)
-    (hnr : (Auth.reloadPolicy f s).2 ≠ .reloadFailed) : FullInv U (Auth.reloadPolicy f s).1 := by
-  unfold Auth.reloadPolicy at hnr ⊢
-  simp only [tick] at hnr ⊢
+theorem reloadPolicy_inv (U : List Prov) (v : Variant) (hv : v.fixEnforce = true) (f : Faults) (s : Auth)
+    (h : AuthInv U s) : FullInv U (Auth.reloadPolicy v f s).1 := by
+  unfold Auth.reloadPolicy
+  simp only [tick]
   by_cases hb : s.calls + 1 ∈ f
-  · simp [hb] at hnr
+  · simp only [List.contains_eq_mem, hb, decide_true, if_true, hv]
+    exact ⟨h, rfl⟩
   · simp only [List.contains_eq_mem, hb, decide_false, Bool.false_eq_true, if_false]
     exact ⟨h, rfl⟩
 
-theorem policyWrite_inv (U : List Prov) (f : Faults) (s : Auth) (cur : Str) (p : Pol) (create : Bool)
-    (h : FullInv U s) (hnr : (Auth.policyWrite f s cur p create).2 ≠ .reloadFailed) :
-    FullInv U (Auth.policyWrite f s cur p create).1 := by
-  unfold Auth.policyWrite at hnr ⊢
-  simp only [tick] at hnr ⊢
+/-- policy writes of the repaired code keep the invariant whatever fails: when the read-back
+    fails the engine is built from the policy just written -/
+theorem policyWrite_inv (U : List Prov) (v : Variant) (hv : v.fixEnforce = true) (f : Faults) (s : Auth)
+    (cur : Str) (p : Pol) (create : Bool) (h : FullInv U s) : FullInv U (Auth.policyWrite v f s cur p create).1 := by
+  unfold Auth.policyWrite
+  simp only [tick]
   by_cases hb : s.calls + 1 ∈ f
   · simp only [List.contains_eq_mem, hb, decide_true, if_true]; exact h
-  simp only [List.contains_eq_mem, hb, decide_false, Bool.false_eq_true, if_false] at hnr ⊢
+  simp only [List.contains_eq_mem, hb, decide_false, Bool.false_eq_true, if_false]
   cases hpc : Auth.polOut (polCheck p (cur :: s.db.adms.map (·.sub))) with
   | some o => exact h
   | none =>
-    simp only [hpc] at hnr ⊢
+    simp only
     by_cases hb2 : s.calls + 1 + 1 ∈ f
     · simp only [hb2, decide_true, if_true]; exact h
-    simp only [hb2, decide_false, Bool.false_eq_true, if_false] at hnr ⊢
+    simp only [hb2, decide_false, Bool.false_eq_true, if_false]
     by_cases h1' : (create && s.db.policy.isSome) = true
     · simp only [h1', if_true]; exact h
     have h1 : (create && s.db.policy.isSome) = false := Bool.eq_false_iff.mpr h1'
-    simp only [h1, Bool.false_eq_true, if_false] at hnr ⊢
+    simp only [h1, Bool.false_eq_true, if_false]
     by_cases h2' : (!create && s.db.policy.isNone) = true
     · simp only [h2', if_true]; exact h
     have h2 : (!create && s.db.policy.isNone) = false := Bool.eq_false_iff.mpr h2'
-    simp only [h2, Bool.false_eq_true, if_false] at hnr ⊢
+    simp only [h2, Bool.false_eq_true, if_false]
     obtain ⟨E, hE⟩ := h.1
-    exact reloadPolicy_inv U f _ ⟨E, hE.with_policy (some p)⟩ hnr
+    exact reloadPolicy_inv U v hv f _ ⟨E, hE.with_policy (some p)⟩
 
 /-- **cache_eq_store (all operations, any storage failures)** — for the repaired code
     (`Variant.fixed` = /repo at HEAD), every authority operation — accepted, refused, or hit by
     any number of storage failures — leaves the running CA consistent with the database
-    (`FullInv`), unless it *reports* that a reload failed (`reloadFailed`). -/
+    (`FullInv`), unless it is an admin/provisioner operation that *reports* that the reload after
+    its failed write failed as well (`reloadFailed`). Policy operations and restarts keep the
+    invariant whatever they report. -/
 theorem step_inv (U : List Prov) (hU : SumsOK U) (f : Faults) (s : Auth) (op : AOp)
     (hvalid : ValidOp U s op) (h : FullInv U s)
-    (hnr : (Auth.step Variant.fixed f s op).2 ≠ .reloadFailed) : FullInv U (Auth.step Variant.fixed f s op).1 := by
+    (hnr : (Auth.step Variant.fixed f s op).2 ≠ .reloadFailed ∨ isPolicyOp op = true) :
+    FullInv U (Auth.step Variant.fixed f s op).1 := by
   have frame := step_frame Variant.fixed f s op
   have fin : isPolicyOp op = false → AuthInv U (Auth.step Variant.fixed f s op).1 →
       FullInv U (Auth.step Variant.fixed f s op).1 :=
     fun hop hi => ⟨hi, by rw [(frame hop).2, (frame hop).1]; exact h.2⟩
   cases op with
   | storeAdmin a pid pname => exact fin rfl (storeAdmin_inv U _ f s a pid pname hvalid h.1)
-  | updateAdmin id t => exact fin rfl (updateAdmin_inv U hU _ rfl f s id t h.1 hnr)
-  | removeAdmin id => exact fin rfl (removeAdmin_inv U hU _ f s id h.1 hnr)
+  | updateAdmin id t => exact fin rfl (updateAdmin_inv U hU _ rfl f s id t h.1 (hnr.resolve_right (by simp [isPolicyOp])))
+  | removeAdmin id => exact fin rfl (removeAdmin_inv U hU _ f s id h.1 (hnr.resolve_right (by simp [isPolicyOp])))
   | storeProv p => exact fin rfl (storeProv_inv U hU _ f s p hvalid h.1)
-  | updateProv p => exact fin rfl (updateProv_inv U hU _ rfl f s p hvalid h.1 hnr)
+  | updateProv p => exact fin rfl (updateProv_inv U hU _ rfl f s p hvalid h.1 (hnr.resolve_right (by simp [isPolicyOp])))
   | removeProv id =>
     obtain ⟨E, hE⟩ := h.1
-    exact fin rfl ((removeProv_spec U hU _ f s id E hE).1 hnr)
+    exact fin rfl ((removeProv_spec U hU _ f s id E hE).1 (hnr.resolve_right (by simp [isPolicyOp])))
   | createPolicy cur p =>
-    unfold Auth.step at hnr ⊢
-    exact policyWrite_inv U f { s with calls := 0 } cur p true h hnr
+    unfold Auth.step
+    exact policyWrite_inv U _ rfl f { s with calls := 0 } cur p true h
   | updatePolicy cur p =>
-    unfold Auth.step at hnr ⊢
-    exact policyWrite_inv U f { s with calls := 0 } cur p false h hnr
+    unfold Auth.step
+    exact policyWrite_inv U _ rfl f { s with calls := 0 } cur p false h
   | removePolicy =>
-    unfold Auth.step at hnr ⊢
-    simp only [tick] at hnr ⊢
+    unfold Auth.step
+    simp only [tick]
     by_cases hb : 0 + 1 ∈ f
     · simp only [List.contains_eq_mem, hb, decide_true, if_true]; exact h
-    simp only [List.contains_eq_mem, hb, decide_false, Bool.false_eq_true, if_false] at hnr ⊢
+    simp only [List.contains_eq_mem, hb, decide_false, Bool.false_eq_true, if_false]
     cases hpol : s.db.policy with
     | none => exact h
     | some q =>
-      simp only [hpol] at hnr ⊢
+      simp only
       obtain ⟨E, hE⟩ := h.1
-      exact reloadPolicy_inv U f _ ⟨E, hE.with_policy none⟩ hnr
+      exact reloadPolicy_inv U _ rfl f _ ⟨E, hE.with_policy none⟩
   | restart =>
-    unfold Auth.step at hnr ⊢
-    simp only at hnr ⊢
+    unfold Auth.step
+    simp only
     obtain ⟨E, hE⟩ := h.1
     have hr := reload_inv U hU f { s with calls := 0 } hE.dbinv
     cases hb : reload f { s with calls := 0 } with
     | mk s' b =>
-      rw [hb] at hr hnr
+      rw [hb] at hr
       cases b with
-      | true => simp at hnr
+      | true =>
+        -- the new process does not come up; the running one is untouched
+        have := hr.2 rfl
+        simp only at this ⊢
+        exact ⟨⟨E, by rw [this.2.1, this.2.2.1]; exact hE⟩, by rw [this.2.2.2, this.2.2.1]; exact h.2⟩
       | false =>
         simp only
         have := hr.1 rfl
@@ -1786,55 +1815,25 @@ theorem removeAdmins_rf (U : List Prov) (hU : SumsOK U) (f : Faults) : ∀ (ids 
     · rw [if_neg hok] at hrf
       exact removeAdmin1_rf U hU f s id E h hrf
 
-/-- the single-failure exceptions: the operation *succeeded* in the database and then re-reads it
-    (reload after a rename, policy-engine reload, start-up), and that read fails -/
-def ReloadAfterWrite (s : Auth) (f : Faults) : AOp → Prop
-  | .updateProv p => s.cache.provName p.id ≠ some p.name ∧ (2 ∈ f ∨ 3 ∈ f)
-  | .createPolicy _ _ => 3 ∈ f
-  | .updatePolicy _ _ => 3 ∈ f
-  | .removePolicy => 2 ∈ f
-  | .restart => 1 ∈ f ∨ 2 ∈ f
-  | _ => False
+theorem provPolicyCheck_out {A : AColl} {nm : Str} {p : Prov} {o : AuthOut}
+    (h : Auth.provPolicyCheck A nm p = some o) : o ≠ .reloadFailed := by
+  unfold Auth.provPolicyCheck at h
+  cases hpp : p.pol with
+  | none => simp [hpp] at h
+  | some pol =>
+    simp only [hpp] at h
+    unfold Auth.polOut at h
+    cases hq : polCheck pol (((A.byProv.get nm).getD []).map (·.sub)) <;> rw [hq] at h <;> simp at h <;>
+      subst h <;> simp
 
-theorem policyWrite_rf (f : Faults) (s : Auth) (cur : Str) (p : Pol) (create : Bool)
-    (h : (Auth.policyWrite f s cur p create).2 = .reloadFailed) : s.calls + 3 ∈ f := by
-  unfold Auth.policyWrite at h
-  simp only [tick] at h
-  by_cases hb : s.calls + 1 ∈ f
-  · simp [hb] at h
-  simp only [List.contains_eq_mem, hb, decide_false, Bool.false_eq_true, if_false] at h
-  cases hpc : Auth.polOut (polCheck p (cur :: s.db.adms.map (·.sub))) with
-  | some o =>
-    simp only [hpc] at h
-    unfold Auth.polOut at hpc
-    cases hq : polCheck p (cur :: s.db.adms.map (·.sub)) <;> rw [hq] at hpc <;> simp at hpc <;> subst hpc <;> simp at h
-  | none =>
-    simp only [hpc] at h
-    by_cases hb2 : s.calls + 1 + 1 ∈ f
-    · simp [hb2] at h
-    simp only [hb2, decide_false, Bool.false_eq_true, if_false] at h
-    by_cases h1' : (create && s.db.policy.isSome) = true
-    · simp [h1'] at h
-    have h1 : (create && s.db.policy.isSome) = false := Bool.eq_false_iff.mpr h1'
-    simp only [h1, Bool.false_eq_true, if_false] at h
-    by_cases h2' : (!create && s.db.policy.isNone) = true
-    · simp [h2'] at h
-    have h2 : (!create && s.db.policy.isNone) = false := Bool.eq_false_iff.mpr h2'
-    simp only [h2, Bool.false_eq_true, if_false] at h
-    unfold Auth.reloadPolicy at h
-    simp only [tick] at h
-    by_cases hb3 : s.calls + 1 + 1 + 1 ∈ f
-    · exact hb3
-    · simp [hb3] at h
-
-/-- **which failures break cache = store** — an operation of the repaired code reports
-    `reloadFailed` (the only outcome after which cache and database may disagree, `step_inv`) only
-    if two database calls of the request failed — the write and a read of the reload after it —
-    or if it is one of the operations that re-read the database after a *successful* write and
-    that single read failed. -/
+/-- **which failures break cache = store** — an admin or provisioner operation of the repaired
+    code reports `reloadFailed` (the only outcome after which cache and database may disagree,
+    `step_inv`) only if two database calls of the request failed: the write, and a read of the
+    reload that follows the failed write. (Policy operations and restarts may report it after one
+    failing read, but keep the invariant: `step_inv`.) -/
 theorem reloadFailed_causes (U : List Prov) (hU : SumsOK U) (f : Faults) (s : Auth) (op : AOp)
     (hvalid : ValidOp U s op) (h : FullInv U s)
-    (hrf : (Auth.step Variant.fixed f s op).2 = .reloadFailed) : TwoFaults f ∨ ReloadAfterWrite s f op := by
+    (hrf : (Auth.step Variant.fixed f s op).2 = .reloadFailed) : TwoFaults f ∨ isPolicyOp op = true := by
   obtain ⟨E, hE⟩ := h.1
   cases op with
   | storeAdmin a pid pname =>
@@ -1894,17 +1893,10 @@ theorem reloadFailed_causes (U : List Prov) (hU : SumsOK U) (f : Faults) (s : Au
     split at hrf
     · cases hrf
     rename_i htok
-    cases hpc : Auth.provPolicyCheck s.cache.A p with
+    cases hpc : Auth.provPolicyCheck s.cache.A p.name p with
     | some o =>
       simp only [hpc] at hrf
-      unfold Auth.provPolicyCheck at hpc
-      cases hpp : p.pol with
-      | none => simp [hpp] at hpc
-      | some pol =>
-        simp only [hpp] at hpc
-        unfold Auth.polOut at hpc
-        cases hq : polCheck pol (((s.cache.A.byProv.get p.name).getD []).map (·.sub)) <;> rw [hq] at hpc <;>
-          simp at hpc <;> subst hpc <;> simp at hrf
+      exact provPolicyCheck_out hpc hrf
     | none =>
     simp only [hpc] at hrf
     by_cases hb : 0 + 1 ∈ f
@@ -1923,49 +1915,33 @@ theorem reloadFailed_causes (U : List Prov) (hU : SumsOK U) (f : Faults) (s : Au
       rw [hst] at hok; simp only at hok; subst hok
       simp [hst] at hrf
   | updateProv p =>
+    left
     unfold Auth.step at hrf
     simp only [tick] at hrf
-    cases hpc : Auth.provPolicyCheck s.cache.A p with
+    generalize (if Variant.fixed.fixPolName = true then (s.cache.provName p.id).getD p.name else p.name) = nm at hrf
+    cases hpc : Auth.provPolicyCheck s.cache.A nm p with
     | some o =>
-      exfalso
       simp only [hpc] at hrf
-      unfold Auth.provPolicyCheck at hpc
-      cases hpp : p.pol with
-      | none => simp [hpp] at hpc
-      | some pol =>
-        simp only [hpp] at hpc
-        unfold Auth.polOut at hpc
-        cases hq : polCheck pol (((s.cache.A.byProv.get p.name).getD []).map (·.sub)) <;> rw [hq] at hpc <;>
-          simp at hpc <;> subst hpc <;> simp at hrf
+      exact absurd hrf (provPolicyCheck_out hpc)
     | none =>
     simp only [hpc] at hrf
-    have full := PColl.update_full s.cache.P p hE.pinv (hU.1 p hvalid) (fun e he heq => hU.2 e.2 (hE.pU e he) p hvalid heq)
     cases hup : s.cache.P.update p with
     | mk P' e =>
-      rw [hup] at full
       cases e with
       | some e => simp only [hup] at hrf; cases e <;> simp at hrf
       | none =>
-        obtain ⟨old, hold, hoid, _, hfree, _, _⟩ := full.2 rfl
         simp only [hup] at hrf
         by_cases hb : 0 + 1 ∈ f
-        · left
-          simp only [List.contains_eq_mem, hb, decide_true, if_true] at hrf
+        · simp only [List.contains_eq_mem, hb, decide_true, if_true] at hrf
           exact afterFail_rf U hU f
             { cache := { P := P', A := s.cache.A }, db := s.db, engine := s.engine, calls := 0 + 1 }
             .storeFailed (by simp) hE.dbinv hb hrf
-        · simp only [List.contains_eq_mem, hb, decide_false, Bool.false_eq_true, if_false, Variant.fixed, true_and] at hrf
+        · exfalso
+          simp only [List.contains_eq_mem, hb, decide_false, Bool.false_eq_true, if_false, Variant.fixed, true_and] at hrf
           by_cases hren : s.cache.provName p.id ≠ some p.name
-          · right
-            rw [if_pos hren] at hrf
-            have := afterFail_reloadFailed U hU f
-              { cache := { P := P', A := s.cache.A },
-                db := { s.db with provs := s.db.provs.map (fun q => if q.id = p.id then p else q) },
-                engine := s.engine, calls := 0 + 1 }
-              .ok (by simp)
-              (dbinv_replace hE.dbinv hvalid ((hE.agreeP old).mp hold) hoid (fun q hq => hfree q ((hE.agreeP q).mpr hq))) hrf
-            exact ⟨hren, by simpa using this⟩
-          · rw [if_neg hren] at hrf; cases hrf
+          · rw [if_pos hren] at hrf
+            cases hgo : buildCache.goA P' {} s.cache.A.sorted <;> simp [hgo] at hrf
+          · rw [if_neg hren, if_neg hren] at hrf; cases hrf
   | removeProv id =>
     left
     unfold Auth.step at hrf
@@ -1996,80 +1972,54 @@ theorem reloadFailed_causes (U : List Prov) (hU : SumsOK U) (f : Faults) (s : Au
           · simp [hb] at hrf
       · rw [if_pos (by simpa using hok)] at hrf
         exact removeAdmins_rf U hU f _ { s with calls := 0 } E hE hrf
-  | createPolicy cur p =>
-    right
-    unfold Auth.step at hrf
-    have := policyWrite_rf f { s with calls := 0 } cur p true hrf
-    simpa [ReloadAfterWrite] using this
-  | updatePolicy cur p =>
-    right
-    unfold Auth.step at hrf
-    have := policyWrite_rf f { s with calls := 0 } cur p false hrf
-    simpa [ReloadAfterWrite] using this
-  | removePolicy =>
-    right
-    unfold Auth.step at hrf
-    simp only [tick] at hrf
-    by_cases hb : 0 + 1 ∈ f
-    · simp [hb] at hrf
-    simp only [List.contains_eq_mem, hb, decide_false, Bool.false_eq_true, if_false] at hrf
-    cases hpol : s.db.policy with
-    | none => simp [hpol] at hrf
-    | some q =>
-      simp only [hpol] at hrf
-      unfold Auth.reloadPolicy at hrf
-      simp only [tick] at hrf
-      by_cases hb2 : 0 + 1 + 1 ∈ f
-      · simpa [ReloadAfterWrite] using hb2
-      · simp [hb2] at hrf
-  | restart =>
-    right
-    unfold Auth.step at hrf
-    simp only at hrf
-    have hr := reload_inv U hU f { s with calls := 0 } hE.dbinv
-    cases hb : reload f { s with calls := 0 } with
-    | mk s' b =>
-      rw [hb] at hr hrf
-      cases b with
-      | false => simp at hrf
-      | true =>
-        have := (hr.2 rfl).1
-        simpa [ReloadAfterWrite] using this
+  | createPolicy cur p => exact .inr rfl
+  | updatePolicy cur p => exact .inr rfl
+  | removePolicy => exact .inr rfl
+  | restart => exact .inr rfl
 
-/-- **cache_eq_store (single storage failure)** — with at most one failing database call inside
-    the request, every operation of the repaired code leaves the CA consistent with the database,
-    except when that one failure hits the re-read that follows a successful rename, policy write
-    or start-up (`ReloadAfterWrite`). -/
-theorem cache_eq_store_single_fault (U : List Prov) (hU : SumsOK U) (f : Faults) (hf : f.length ≤ 1) (s : Auth)
-    (op : AOp) (hvalid : ValidOp U s op) (h : FullInv U s) (hx : ¬ReloadAfterWrite s f op) :
+/-- **cache_eq_store (no two failures)** — unless two database calls of the same request fail at
+    positions n and n+1 or n+2 (a write and a read of the reload that follows it), every operation
+    of the repaired code — including renames, policy writes and restarts, and whatever it reports —
+    leaves the CA consistent with the database. -/
+theorem cache_eq_store_unless_two_faults (U : List Prov) (hU : SumsOK U) (f : Faults) (hf : ¬TwoFaults f)
+    (s : Auth) (op : AOp) (hvalid : ValidOp U s op) (h : FullInv U s) :
     FullInv U (Auth.step Variant.fixed f s op).1 := by
   apply step_inv U hU f s op hvalid h
-  intro hrf
-  rcases reloadFailed_causes U hU f s op hvalid h hrf with h2 | h2
-  · exact not_twoFaults_of_single hf h2
-  · exact hx h2
+  by_cases hp : isPolicyOp op = true
+  · exact .inr hp
+  · left
+    intro hrf
+    rcases reloadFailed_causes U hU f s op hvalid h hrf with h2 | h2
+    · exact hf h2
+    · exact hp h2
+
+/-- **cache_eq_store (any single storage failure)** — with at most one failing database call
+    inside the request, *every* operation of the repaired code leaves the CA consistent with the
+    database: no exception for renames, policy writes or restarts any more. -/
+theorem cache_eq_store_single_fault (U : List Prov) (hU : SumsOK U) (f : Faults) (hf : f.length ≤ 1) (s : Auth)
+    (op : AOp) (hvalid : ValidOp U s op) (h : FullInv U s) : FullInv U (Auth.step Variant.fixed f s op).1 :=
+  cache_eq_store_unless_two_faults U hU f (not_twoFaults_of_single hf) s op hvalid h
 
 /-- no storage failure at all: every operation keeps the invariant -/
 theorem cache_eq_store_no_fault (U : List Prov) (hU : SumsOK U) (s : Auth) (op : AOp)
-    (hvalid : ValidOp U s op) (h : FullInv U s) : FullInv U (Auth.step Variant.fixed [] s op).1 := by
-  apply cache_eq_store_single_fault U hU [] (by simp) s op hvalid h
-  cases op <;> simp [ReloadAfterWrite]
+    (hvalid : ValidOp U s op) (h : FullInv U s) : FullInv U (Auth.step Variant.fixed [] s op).1 :=
+  cache_eq_store_single_fault U hU [] (by simp) s op hvalid h
 
-/-- a history: operations with their failing call positions, each valid in the state it meets -/
+/-- a history: operations with their failing call positions, each valid in the state it meets and
+    none with two failures around a reload -/
 def ValidRun (U : List Prov) : Auth → List (AOp × Faults) → Prop
   | _, [] => True
-  | s, (o, f) :: r => ValidOp U s o ∧ (Auth.step Variant.fixed f s o).2 ≠ .reloadFailed ∧
-      ValidRun U (Auth.step Variant.fixed f s o).1 r
+  | s, (o, f) :: r => ValidOp U s o ∧ ¬TwoFaults f ∧ ValidRun U (Auth.step Variant.fixed f s o).1 r
 
-/-- **cache_eq_store over histories** — along any history of operations, storage failures and
-    restarts in which no operation reports `reloadFailed`, the CA stays consistent with the
-    database. -/
+/-- **cache_eq_store over histories** — along any history of operations, restarts and storage
+    failures in which no single request suffers two failures around a reload, the CA stays
+    consistent with the database. -/
 theorem run_inv (U : List Prov) (hU : SumsOK U) : ∀ (ops : List (AOp × Faults)) (s : Auth),
     FullInv U s → ValidRun U s ops → FullInv U (Auth.run Variant.fixed s ops)
   | [], _, h, _ => h
   | (o, f) :: r, s, h, hv => by
     unfold Auth.run
-    exact run_inv U hU r _ (step_inv U hU f s o hv.1 h hv.2.1) hv.2.2
+    exact run_inv U hU r _ (cache_eq_store_unless_two_faults U hU f hv.2.1 s o hv.1 h) hv.2.2
 
 /-- a freshly started CA on a consistent database satisfies the invariant -/
 theorem boot_inv (U : List Prov) (hU : SumsOK U) (db : DB) (hdb : DBInv U db)
@@ -2202,13 +2152,13 @@ theorem removeAdmins_super (U : List Prov) (hU : SumsOK U) (f : Faults) : ∀ (i
       exact removeAdmins_super U hU f r _ _ ((removeAdmin1_spec U hU f s id E h).1 hok).1 hs
     · rw [if_neg hok]; exact hs
 
-theorem reloadPolicy_db (f : Faults) (s : Auth) : (Auth.reloadPolicy f s).1.db = s.db := by
+theorem reloadPolicy_db (v : Variant) (f : Faults) (s : Auth) : (Auth.reloadPolicy v f s).1.db = s.db := by
   unfold Auth.reloadPolicy
   simp only [tick]
   by_cases hb : s.calls + 1 ∈ f <;> simp [hb]
 
-theorem policyWrite_adms (f : Faults) (s : Auth) (cur : Str) (p : Pol) (create : Bool) :
-    (Auth.policyWrite f s cur p create).1.db.adms = s.db.adms := by
+theorem policyWrite_adms (v : Variant) (f : Faults) (s : Auth) (cur : Str) (p : Pol) (create : Bool) :
+    (Auth.policyWrite v f s cur p create).1.db.adms = s.db.adms := by
   unfold Auth.policyWrite
   simp only [tick]
   by_cases hb : s.calls + 1 ∈ f
@@ -2308,7 +2258,7 @@ theorem auth_super_remains (U : List Prov) (hU : SumsOK U) (f : Faults) (s : Aut
     · exact h1
     split
     · exact h1
-    cases Auth.provPolicyCheck s.cache.A p with
+    cases Auth.provPolicyCheck s.cache.A p.name p with
     | some o => exact h1
     | none =>
     simp only
@@ -2333,7 +2283,8 @@ theorem auth_super_remains (U : List Prov) (hU : SumsOK U) (f : Faults) (s : Aut
   | updateProv p =>
     unfold Auth.step
     simp only [tick]
-    cases Auth.provPolicyCheck s.cache.A p with
+    generalize (if Variant.fixed.fixPolName = true then (s.cache.provName p.id).getD p.name else p.name) = nm
+    cases Auth.provPolicyCheck s.cache.A nm p with
     | some o => exact h1
     | none =>
     simp only
@@ -2349,6 +2300,8 @@ theorem auth_super_remains (U : List Prov) (hU : SumsOK U) (f : Faults) (s : Aut
             { cache := { P := P', A := s.cache.A }, db := s.db, engine := s.engine, calls := 0 + 1 } .storeFailed).1]
           exact h1
         · simp only [List.contains_eq_mem, hb, decide_false, Bool.false_eq_true, if_false]
+          split
+          · cases buildCache.goA P' {} s.cache.A.sorted <;> exact h1
           split
           · rw [(afterFail_frame f
               { cache := { P := P', A := s.cache.A },
@@ -2619,11 +2572,11 @@ theorem polCheck_ok {p : Pol} {subjects : List Str} (h : Auth.polOut (polCheck p
     | lockOut => simp [hc, Auth.polOut] at h
     | evalFailure => simp [hc, Auth.polOut] at h
 
-theorem policyWrite_ok (f : Faults) (s : Auth) (cur : Str) (p : Pol) (create : Bool)
-    (h : (Auth.policyWrite f s cur p create).2 = .ok) :
+theorem policyWrite_ok (v : Variant) (f : Faults) (s : Auth) (cur : Str) (p : Pol) (create : Bool)
+    (h : (Auth.policyWrite v f s cur p create).2 = .ok) :
     Auth.polOut (polCheck p (cur :: s.db.adms.map (·.sub))) = none ∧
-    (Auth.policyWrite f s cur p create).1.db.policy = some p ∧
-    (Auth.policyWrite f s cur p create).1.engine = some p := by
+    (Auth.policyWrite v f s cur p create).1.db.policy = some p ∧
+    (Auth.policyWrite v f s cur p create).1.engine = some p := by
   unfold Auth.policyWrite at h ⊢
   simp only [tick] at h ⊢
   by_cases hb : s.calls + 1 ∈ f
@@ -2667,7 +2620,7 @@ theorem policy_op_no_lockout (v : Variant) (f : Faults) (s : Auth) (cur : Str) (
   all_goals
     unfold Auth.step at h ⊢
     simp only at h ⊢
-    obtain ⟨hc, hp, he⟩ := policyWrite_ok f _ cur p _ h
+    obtain ⟨hc, hp, he⟩ := policyWrite_ok v f _ cur p _ h
     refine ⟨hp, he, ?_⟩
     rcases polCheck_ok hc with hk | ⟨hk, hall⟩
     · exact .inl hk
@@ -2677,40 +2630,56 @@ theorem policy_op_no_lockout (v : Variant) (f : Faults) (s : Auth) (cur : Str) (
       intro a ha
       exact hall a.sub (List.mem_cons_of_mem _ (List.mem_map.mpr ⟨a, ha, rfl⟩))
 
-/-- the provisioner-policy check of `StoreProvisioner` / `UpdateProvisioner`: an accepted policy
-    allows every administrator registered under the provisioner's (new) *name* -/
-theorem prov_policy_checked (A : AColl) (p : Prov) (pol : Pol) (hp : p.pol = some pol)
-    (h : Auth.provPolicyCheck A p = none) :
-    pol.kind = .noX509 ∨ (pol.kind = .engine ∧ ∀ a ∈ group A p.name, verdictOf pol a.sub = .allowed) := by
+/-- the provisioner-policy check: an accepted policy allows every administrator registered under
+    the name the check was given -/
+theorem prov_policy_checked (A : AColl) (nm : Str) (p : Prov) (pol : Pol) (hp : p.pol = some pol)
+    (h : Auth.provPolicyCheck A nm p = none) :
+    pol.kind = .noX509 ∨ (pol.kind = .engine ∧ ∀ a ∈ group A nm, verdictOf pol a.sub = .allowed) := by
   unfold Auth.provPolicyCheck at h
   simp only [hp] at h
   rcases polCheck_ok h with hk | ⟨hk, hall⟩
   · exact .inl hk
   · exact .inr ⟨hk, fun a ha => hall a.sub (List.mem_map.mpr ⟨a, ha, rfl⟩)⟩
 
-/-- **provisioner policy (no rename)** — for a consistent CA, an `UpdateProvisioner` that keeps
-    the name and is not refused by the policy check carries a policy that allows every
-    administrator of that provisioner in the database. -/
+/-- **provisioner policy (any update, rename included)** — for a consistent CA, an
+    `UpdateProvisioner` of the repaired code that gets past the policy check carries a policy that
+    allows every administrator of that provisioner in the database, whatever name the update
+    gives the provisioner: the check reads the administrators under the name the provisioner has
+    *now*. -/
 theorem prov_policy_no_lockout {U : List Prov} {s : Auth} (h : FullInv U s) (p : Prov) (pol : Pol)
-    (hp : p.pol = some pol) (hreg : ∃ q ∈ s.db.provs, q.id = p.id ∧ q.name = p.name)
-    (hc : Auth.provPolicyCheck s.cache.A p = none) (hk : pol.kind = .engine) :
+    (hp : p.pol = some pol) (hreg : ∃ q ∈ s.db.provs, q.id = p.id) (hk : pol.kind = .engine)
+    (hout : (Auth.step Variant.fixed [] s (.updateProv p)).2 = .ok) :
     ∀ a ∈ s.db.adms, a.provId = p.id → verdictOf pol a.sub = .allowed := by
   obtain ⟨E, hE⟩ := h.1
-  obtain ⟨q, hq, hqid, hqn⟩ := hreg
-  rcases prov_policy_checked s.cache.A p pol hp hc with h0 | ⟨_, hall⟩
+  obtain ⟨q, hq, hqid⟩ := hreg
+  have hql := (hE.agreeP q).mpr hq
+  have hname : s.cache.provName p.id = some q.name := hE.pinv.provName.mpr ⟨q, hql, hqid, rfl⟩
+  have hc : Auth.provPolicyCheck s.cache.A q.name p = none := by
+    unfold Auth.step at hout
+    simp only [tick, Variant.fixed, if_true, hname, Option.getD_some] at hout
+    cases hpc : Auth.provPolicyCheck s.cache.A q.name p with
+    | none => rfl
+    | some o =>
+      simp only [hpc] at hout
+      have := provPolicyCheck_out hpc
+      unfold Auth.provPolicyCheck at hpc
+      simp only [hp] at hpc
+      unfold Auth.polOut at hpc
+      cases hq2 : polCheck pol (((s.cache.A.byProv.get q.name).getD []).map (·.sub)) <;> rw [hq2] at hpc <;>
+        simp at hpc <;> subst hpc <;> simp at hout
+  rcases prov_policy_checked s.cache.A q.name p pol hp hc with h0 | ⟨_, hall⟩
   · rw [hk] at h0; cases h0
   intro a ha hid
   have hal := (hE.agreeA a).mpr ha
-  have hql := (hE.agreeP q).mpr hq
   have := (group_is_provisioner hE hql hal).mpr (by rw [hid, hqid])
   simp only [List.contains_eq_mem, List.mem_map, decide_eq_true_eq] at this
   obtain ⟨x, hx, hxid⟩ := this
   have hxl := hE.ast.grep.mem_listed ((hE.ast.grep.grp q.name x).mp hx)
   have hxa : x = a := hE.ast.ainv.sorted.inj hxl hal hxid
   rw [← hxa]
-  exact hall x (by rw [← hqn]; exact hx)
+  exact hall x hx
 
-/-! ## what turned out false (refutations on /repo as it stands, `Variant.fixed`) -/
+/-! ## what had turned out false (F1–F3, repaired since) and what remains (two failures) -/
 
 namespace Witness
 /-- a policy whose engine does not allow the name `step` -/
@@ -2730,41 +2699,55 @@ example : FullInv [p0, p0'] (booted .fixed) := by
     simp only [List.mem_cons, List.not_mem_nil, or_false] at hp hq
     rcases hp with rfl | rfl <;> rcases hq with rfl | rfl <;> decide
 
-/-- **single failure after a rename (refutation of unconditional cache = store)** — the reload
-    added by `fix:` 2140646 is itself two database reads after the write has succeeded. If one of
-    them fails (one storage failure in the whole request) the provisioner is renamed in database
-    and provisioner cache, while the administrator cache still uses the old name: the stored
-    administrator can no longer be found under (subject, current name). -/
-theorem rename_reload_failure_stale :
-    let r := Auth.step Variant.fixed [2] (booted .fixed) (.updateProv p0')
+/-- **F1 before `fix:` 2b0b009 (historic)** — the reload added by 2140646 was two database reads
+    after the write had succeeded; one failing read left the provisioner renamed in database and
+    provisioner cache while the administrator cache still used the old name. -/
+example :
+    let r := Auth.step Variant.renameFixed [2] (booted .renameFixed) (.updateProv p0')
     r.2 = .reloadFailed ∧ r.1.db.provs = [p0'] ∧ r.1.cache.P.byName.get (s "n2") = some p0' ∧
     r.1.cache.A.bySubProv.get (s "step", s "n2") = none ∧ r.1.db.adms = db0.adms := by decide
 
-/-- **single failure after a policy write** — `reloadPolicyEngines` re-reads the policy it has
-    just stored; if that read fails the new policy is in the database but the CA keeps enforcing
-    the old one (here: none) until the next reload. -/
-theorem policy_reload_failure_stale :
-    let r := Auth.step Variant.fixed [3] (booted .fixed) (.createPolicy (s "root") { tag := s "p", kind := .noX509 })
+/-- … and /repo as it stands on the same request: the rename succeeds without any read, the
+    failure position is never reached, the administrator is found under the new name -/
+theorem rename_reindex_current :
+    let r := Auth.step current [2] (booted current) (.updateProv p0')
+    r.2 = .ok ∧ r.1.db.provs = [p0'] ∧ r.1.cache.A.bySubProv.get (s "step", s "n2") ≠ none ∧
+    (Auth.step current [1] (booted current) (.updateProv p0')).2 = .storeFailed ∧
+    (Auth.step current [1] (booted current) (.updateProv p0')).1.db.provs = [p0] := by decide
+
+/-- **F2 before `fix:` 6f70a0d (historic)** — `reloadPolicyEngines` re-read the policy it had just
+    stored; when that read failed the new policy was in the database and the old one enforced. -/
+example :
+    let r := Auth.step Variant.renameFixed [3] (booted .renameFixed) (.createPolicy (s "root") { tag := s "p", kind := .noX509 })
     r.2 = .reloadFailed ∧ r.1.db.policy ≠ none ∧ r.1.engine = none := by decide
 
-/-- **two failures** — the write fails and so does the reload: the cache keeps the change that
-    the database never received. -/
-theorem double_failure_diverges :
-    let r := Auth.step Variant.fixed [1, 2] (booted .fixed) (.updateAdmin (s "a0") false)
-    r.2 = .badRequest ∧
-    (let r' := Auth.step Variant.fixed [1, 2] (Auth.step Variant.fixed [] (booted .fixed)
-        (.storeAdmin { id := s "a1", sub := s "s1", provId := s "p0", super := true } (s "p0") (s "n0"))).1
-        (.updateAdmin (s "a0") false)
-     r'.2 = .reloadFailed ∧ nsuper r'.1.cache.A.sorted = 1 ∧ nsuper r'.1.db.adms = 2) := by decide
+/-- … and /repo as it stands: the failure is still reported, but the engine is the stored policy -/
+theorem policy_enforced_current :
+    let r := Auth.step current [3] (booted current) (.createPolicy (s "root") { tag := s "p", kind := .noX509 })
+    r.2 = .reloadFailed ∧ r.1.db.policy ≠ none ∧ r.1.engine = r.1.db.policy := by decide
 
-/-- **provisioner policy + rename (refutation of the lock-out check)** — `checkProvisionerPolicy`
-    looks the administrators up under the *new* name. An update that renames the provisioner and
-    sets a policy excluding its own administrator is accepted, while the same policy without the
-    rename is refused. -/
-theorem prov_policy_rename_bypass :
-    (Auth.step Variant.fixed [] (booted .fixed) (.updateProv (p0pol "n0"))).2 = .lockOut ∧
-    (Auth.step Variant.fixed [] (booted .fixed) (.updateProv (p0pol "n2"))).2 = .ok ∧
-    (Auth.step Variant.fixed [] (booted .fixed) (.updateProv (p0pol "n2"))).1.db.provs = [p0pol "n2"] := by decide
+/-- **two failures (what remains)** — the write fails and so does the reload: the cache keeps the
+    change that the database never received. This is the only way left to make the two disagree
+    (`cache_eq_store_unless_two_faults`). -/
+theorem double_failure_diverges :
+    let s1 := (Auth.step Variant.fixed [] (booted .fixed)
+        (.storeAdmin { id := s "a1", sub := s "s1", provId := s "p0", super := true } (s "p0") (s "n0"))).1
+    let r := Auth.step Variant.fixed [1, 2] s1 (.updateAdmin (s "a0") false)
+    r.2 = .reloadFailed ∧ nsuper r.1.cache.A.sorted = 1 ∧ nsuper r.1.db.adms = 2 := by decide
+
+/-- **F3 before `fix:` 67d968e (historic)** — `checkProvisionerPolicy` looked the administrators
+    up under the *new* name: rename + excluding policy accepted, same policy without rename refused. -/
+example :
+    (Auth.step Variant.renameFixed [] (booted .renameFixed) (.updateProv (p0pol "n0"))).2 = .lockOut ∧
+    (Auth.step Variant.renameFixed [] (booted .renameFixed) (.updateProv (p0pol "n2"))).2 = .ok ∧
+    (Auth.step Variant.renameFixed [] (booted .renameFixed) (.updateProv (p0pol "n2"))).1.db.provs = [p0pol "n2"] := by
+  decide
+
+/-- … and /repo as it stands: refused with or without the rename (`prov_policy_no_lockout`) -/
+theorem prov_policy_rename_current :
+    (Auth.step current [] (booted current) (.updateProv (p0pol "n0"))).2 = .lockOut ∧
+    (Auth.step current [] (booted current) (.updateProv (p0pol "n2"))).2 = .lockOut ∧
+    (Auth.step current [] (booted current) (.updateProv (p0pol "n2"))).1.db.provs = [p0] := by decide
 
 /-! ## the slice aliasing in `RemoveProvisioner`'s loop -/
 
@@ -2925,5 +2908,160 @@ theorem sliceRemove_is_swapRemove (l tail : List Adm) (a : Adm) (ha : a ∈ l) :
 
 example : aliasedLoop 3 0 [Witness.a0, Witness.a1, Witness.ordAdm] [] = [Witness.a0, Witness.a1, Witness.ordAdm] := by
   decide
+
+/-! ## paging while administrators are deleted between the pages -/
+
+theorem dropWhile_eq_self_of_head {α : Type} {p : α → Bool} : ∀ {l : List α}, (∀ x, l.head? = some x → p x = false) →
+    l.dropWhile p = l
+  | [], _ => rfl
+  | x :: r, h => by simp [h x rfl]
+
+/-- skipping below a cursor commutes with deleting elements from a sorted list -/
+theorem dropWhile_filter_sorted {α : Type} {key : α → Str} (q : α → Bool) (c : Str) : ∀ {l : List α}, Sorted key l →
+    (l.filter q).dropWhile (fun e => slt (key e) c) = (l.dropWhile (fun e => slt (key e) c)).filter q
+  | [], _ => rfl
+  | x :: r, hs => by
+    unfold Sorted at hs
+    rw [List.pairwise_cons] at hs
+    have ih := dropWhile_filter_sorted q c (l := r) hs.2
+    by_cases hx : slt (key x) c = true
+    · have e1 : (x :: r).dropWhile (fun e => slt (key e) c) = r.dropWhile (fun e => slt (key e) c) := by
+        simp [List.dropWhile_cons, hx]
+      rw [e1]
+      by_cases hq : q x = true
+      · rw [List.filter_cons_of_pos hq]
+        have e2 : (x :: r.filter q).dropWhile (fun e => slt (key e) c) = (r.filter q).dropWhile (fun e => slt (key e) c) := by
+          simp [List.dropWhile_cons, hx]
+        rw [e2]; exact ih
+      · rw [List.filter_cons_of_neg hq]; exact ih
+    · have e1 : (x :: r).dropWhile (fun e => slt (key e) c) = x :: r := by
+        simp [List.dropWhile_cons, hx]
+      rw [e1]
+      apply dropWhile_eq_self_of_head
+      intro y hy
+      have hyl : y ∈ (x :: r).filter q := List.mem_of_mem_head? hy
+      rcases List.mem_cons.mp (List.mem_filter.mp hyl).1 with rfl | hyr
+      · simpa using hx
+      · cases hyc : slt (key y) c with
+        | false => rfl
+        | true => exact absurd (slt_trans (hs.1 y hyr) hyc) hx
+
+/-- **paging_exact under interleaved deletion** — a client fetches one page of `k ≥ 1`
+    administrators; then any administrator is deleted (possibly one it has already seen, possibly
+    the one the cursor names); then it follows the cursor to the end. What it has received is the
+    first page *as it was when fetched* followed by everything after it that still exists:
+    every surviving administrator exactly once, in order. (Pages are values: nothing that happens
+    later may change a page already handed out.) -/
+theorem paging_interleaved_remove {α : Type} (key : α → Str) (l : List α) (hs : Sorted key l) (k : Nat) (hk : 1 ≤ k)
+    (q : α → Bool) (fuel : Nat) (hf : l.length < fuel) :
+    let p1 := findG key id id l [] k
+    p1.1 = l.take k ∧
+    (if p1.2 = [] then [] else (pagesG key id id (l.filter q) k fuel p1.2).flatten) = (l.drop k).filter q := by
+  have h0 : l.dropWhile (fun e => slt (key e) (id [])) = l := by
+    apply dropWhile_eq_self_of_head; intro x _; exact slt_nil _
+  simp only [findG, h0]
+  refine ⟨trivial, ?_⟩
+  cases hd : l.drop k with
+  | nil => simp
+  | cons e rest =>
+    have hsplit : l = l.take k ++ e :: rest := by rw [← hd, List.take_append_drop]
+    have htake : l.take k ≠ [] := by
+      intro h0'
+      rcases List.take_eq_nil_iff.mp h0' with h | h
+      · omega
+      · rw [h] at hd; simp at hd
+    obtain ⟨x0, t0, ht0⟩ := List.exists_cons_of_ne_nil htake
+    have hlt : slt (key x0) (key e) = true := by
+      have hs' := hs
+      unfold Sorted at hs'
+      rw [hsplit, ht0] at hs'
+      exact (List.pairwise_append.mp hs').2.2 x0 (by simp) e (by simp)
+    have hne : key e ≠ [] := by
+      intro h; rw [h, slt_nil] at hlt; cases hlt
+    simp only [id, hne, if_false]
+    have hsf : Sorted key (l.filter q) := List.Pairwise.filter _ hs
+    have hdw : (l.filter q).dropWhile (fun x => slt (key x) (id (key e))) = (e :: rest).filter q := by
+      rw [dropWhile_filter_sorted q _ hs]
+      have := dropWhile_sorted (key := key) (l.take k) e rest (by rw [← hsplit]; exact hs)
+      rw [← hsplit] at this
+      simp only [id, this]
+    obtain ⟨pre, hpre⟩ : ∃ pre, l.filter q = pre ++ (e :: rest).filter q :=
+      ⟨(l.take k).filter q, by conv => lhs; rw [hsplit, List.filter_append]⟩
+    exact pagesG_suffix key id id (l.filter q) k hsf hk (fun _ _ => rfl)
+      (by intro a _ b _ hab h; simp only [id] at h; rw [h, slt_nil] at hab; cases hab)
+      fuel pre _ (key e) hpre hdw
+      (by have := (List.filter_sublist (l := e :: rest) (p := q)).length_le
+          have h2 : (e :: rest).length ≤ l.length := by rw [← hd, List.length_drop]; omega
+          omega)
+
+/-- the same for the administrator collection: `Remove` of any administrator between two `Find`s -/
+theorem admin_paging_interleaved_remove (c c' : AColl) (h : AInv c) (id : Str)
+    (hrm : c'.sorted = c.sorted.filter (fun e => decide (e.id ≠ id))) (limit : Int) (fuel : Nat)
+    (hf : c.sorted.length < fuel) :
+    (c.find [] limit).1 = c.sorted.take (normLimit limit) ∧
+    (if (c.find [] limit).2 = [] then []
+      else (pagesG (·.id) _root_.id _root_.id c'.sorted (normLimit limit) fuel (c.find [] limit).2).flatten) =
+      (c.sorted.drop (normLimit limit)).filter (fun e => decide (e.id ≠ id)) := by
+  rw [hrm]
+  exact paging_interleaved_remove (fun (a : Adm) => a.id) c.sorted h.sorted (normLimit limit) (normLimit_pos limit) _ fuel hf
+
+/-! ## a refused collection call changes nothing -/
+
+def isRefusal : Out → Bool
+  | .perr _ => true
+  | .aerr _ => true
+  | _ => false
+
+/-- **rejected ⇒ unchanged** — on consistent collections, every `Store` / `Remove` / `Update` that
+    returns an error leaves both collections exactly as they were (in particular a refused
+    provisioner `Update` cannot drop the provisioner: its pre-checks make the `Remove`+`Store`
+    inside it infallible). -/
+theorem cstep_rejected_unchanged (v : Variant) (U : List Prov) (hU : SumsOK U) (s : Cache) (op : COp)
+    (hop : ∀ p, provOf op = some p → p ∈ U) (hp : PInv s.P) (hsU : ∀ e ∈ s.P.sorted, e.2 ∈ U) (ha : AInv s.A)
+    (href : isRefusal (cstep v s op).2 = true) : (cstep v s op).1 = s := by
+  cases op with
+  | pStore p =>
+    have hpU := hop p rfl
+    have sp := PColl.store_spec s.P p hp (hU.1 p hpU) (fun e he heq => hU.2 e.2 (hsU e he) p hpU heq)
+    simp only [cstep] at href ⊢
+    cases hr : (s.P.store p).2 with
+    | none => rw [hr] at href; simp [pOut, isRefusal] at href
+    | some e => rw [sp.2.1 (by rw [hr]; simp)]
+  | pRemove id =>
+    have sp := PColl.remove_spec s.P id hp
+    simp only [cstep] at href ⊢
+    cases hr : (s.P.remove id).2 with
+    | none => rw [hr] at href; simp [pOut, isRefusal] at href
+    | some e => rw [sp.2.1 (by rw [hr]; simp)]
+  | pUpdate p =>
+    have hpU := hop p rfl
+    have full := PColl.update_full s.P p hp (hU.1 p hpU) (fun e he heq => hU.2 e.2 (hsU e he) p hpU heq)
+    simp only [cstep] at href ⊢
+    cases hr : (s.P.update p).2 with
+    | none => rw [hr] at href; simp [pOut, isRefusal] at href
+    | some e => rw [full.1 (by rw [hr]; simp)]
+  | aStore a pid pname =>
+    have sp := AColl.store_spec s.A a pid pname ha
+    simp only at sp
+    simp only [cstep] at href ⊢
+    cases hr : (s.A.store a pid pname).2 with
+    | none => rw [hr] at href; simp [aOut, isRefusal] at href
+    | some e => rw [sp.2.1 (by rw [hr]; simp)]
+  | aRemove id =>
+    obtain ⟨r, hr, _, hsame, _⟩ := AColl.remove_spec s.A s.provName id ha
+    simp only [cstep, hr] at href ⊢
+    cases hr2 : r.2 with
+    | none => rw [hr2] at href; simp [aOut, isRefusal] at href
+    | some e => rw [hsame (by rw [hr2]; simp)]
+  | aUpdate id t =>
+    simp only [cstep] at href ⊢
+    cases hr : s.A.update v s.provName id t with
+    | crash => rfl
+    | val r =>
+      obtain ⟨_, hsame, _⟩ := AColl.update_spec v s.A s.provName id t ha r hr
+      simp only [hr] at href ⊢
+      cases hr2 : r.2 with
+      | none => rw [hr2] at href; simp [aOut, isRefusal] at href
+      | some e => rw [hsame (by rw [hr2]; simp)]
 
 end Verif.Admin
